@@ -47,6 +47,30 @@ def gen_cases(tr, sd):
     return cases
 
 
+def nullable_through_expr(cg_raw, ga_raw):
+    """role test for the known finding: the compiled table carries a conditional-nullable flag for a symbol S that is not one of S's own
+    empty alternatives in the optimised grammar (so it was propagated by CGrammar::from_grammar), and S has a rule made of nonterminals
+    only in which a reference transforms the parameter (the propagation ignores that transformation)"""
+    def eps(g):
+        out = {}
+        for i, (l, r) in enumerate(g.rules):
+            if not r:
+                out.setdefault(l, set()).add((g.conds.get(i) or "true").replace(" ", ""))
+        return out
+    e_cg, e_ga = eps(cg_raw), eps(ga_raw)
+    params = getattr(cg_raw, "params", {}) or {}
+    for sym, conds in e_cg.items():
+        if conds == e_ga.get(sym, set()):
+            continue
+        for i, (l, r) in enumerate(cg_raw.rules):
+            if l != sym or not r or any(k != "N" for k, _v in r):
+                continue
+            ps = params.get(i) or []
+            if any(pe not in (None, "_", "") for pe in ps):
+                return sym
+    return None
+
+
 def nullable_queries(res):
     """F = symbols flagged nullable in the compiled table; rules from the optimised grammar. Returns (closed_ok, minimal_ok, detail)"""
     cg = gram.parse_grammar_text(res["cgrammar"], res.get("cgrammar_start"))
@@ -107,6 +131,7 @@ def _work(args):
         out["note"] = "terminal mapping failed: used %s, literal lexemes %s" % (sorted(used), sorted(lit))
         return out
     cg = gram.parse_grammar_text(res["cgrammar"], res.get("cgrammar_start"))
+    cg_raw = cg
     if case.get("pref"):
         try:
             ref = larkgen.parametric_reference(case["pref"], lit)
@@ -157,6 +182,37 @@ def _work(args):
     elif r != z3.unsat:
         out["status"] = "unknown"
     s.pop()
+    if case.get("pref") and out["cand"] and out["cand"]["compiled_derives"] and res.get("grammar_after"):
+        # which stage gained the word? the optimised grammar under the documented semantics, or the compiled table's nullable flags
+        try:
+            ga_raw = gram.parse_grammar_text(res["grammar_after"])
+            ga = gram.expand_parametric(ga_raw)
+            sym = nullable_through_expr(cg_raw, ga_raw)
+            if sym and not gram.recognizes(ga, out["cand"]["word"]):
+                out["cand"]["role"] = "cond-nullable-through-param-expr"
+                out["cand"]["symbol"] = sym
+                # the rest of the pipeline for this grammar: optimised grammar (exact semantics) against the reference
+                e4 = gram.CykEnc(ga, w, "g")
+                s.push()
+                s.add(*e4.cons)
+                s.add(z3.Or(*[z3.Xor(e4.derives(j), e2_.derives(j)) for j in range(N + 1)]))
+                t0 = time.time()
+                r2 = s.check()
+                out["solver_s"] += time.time() - t0
+                out["queries"] += 1
+                if r2 == z3.sat:
+                    m = s.model()
+                    word = [m.eval(x, model_completion=True).as_long() for x in w]
+                    inv = {v: k for k, v in lit.items()}
+                    for j in range(N + 1):
+                        if gram.recognizes(ga, word[:j]) != gram.recognizes(ref, word[:j]):
+                            out["cand2"] = dict(word=word[:j], text="".join(inv.get(t, "?") for t in word[:j]), compiled_derives=gram.recognizes(ga, word[:j]), stage="optimised-grammar")
+                            break
+                elif r2 != z3.unsat:
+                    out["status"] = "unknown"
+                s.pop()
+        except (ValueError, KeyError):
+            pass
     if idx % 8 == 0 and len(ref.rules) > 2:
         rules = list(ref.rules)
         drop = max(range(1, len(rules)), key=lambda i: len(rules[i][1]))
@@ -221,6 +277,8 @@ def run():
                     viol.append(("nullable-not-least", dict(property=prop, grammar=c["text"], cgrammar=results[i]["cgrammar"], note="a strictly smaller closed set of nullable symbols exists: some symbol is flagged nullable without deriving the empty word")))
             if o["cand"]:
                 cands.append((i, o["cand"]))
+            if o.get("cand2"):
+                cands.append((i, o["cand2"]))
             if o["twin"] is not None:
                 stats["twins"] += 1
                 stats["twins_sat"] += (o["twin"] == "sat")
@@ -253,8 +311,12 @@ def run():
         elif got_all and bool(rr.get("accepting")) != want_acc:
             differ = "complete string %r: engine accepting=%s, reference derives=%s" % (cd["text"], rr.get("accepting"), want_acc)
         if differ:
-            viol.append(("language-%s" % ("gained" if cd["compiled_derives"] else "lost"), dict(property=prop, grammar=c["text"], text=cd["text"], difference=differ,
-                                                                                        cgrammar=results[i]["cgrammar"])))
+            key = "language-%s" % ("gained" if cd["compiled_derives"] else "lost")
+            if cd.get("role"):
+                key += "|" + cd["role"]
+            elif cd.get("stage"):
+                key += "|" + cd["stage"]
+            viol.append((key, dict(property=prop, grammar=c["text"], text=cd["text"], difference=differ, cgrammar=results[i]["cgrammar"], role=cd.get("role"), symbol=cd.get("symbol"))))
         else:
             inconclusive.append("case %d: compiled table and reference differ on %r but the real Matcher agrees with the reference (table parse problem?)" % (i, cd["text"]))
     if stats["twins"] and stats["twins_sat"] * 2 < stats["twins"]:
